@@ -1,5 +1,6 @@
 import Model.Export
 import Model.GoSlice
+import Model.ExportReplay
 import Driver.Util
 namespace DriverC09
 open Export DriverUtil
@@ -11,6 +12,7 @@ structure St where
   peer : Peer := default
   new  : Path := default
   old  : Option Path := none
+  adjs : List (Nat × List AdjIn) := []    -- Adj-RIB-In per peer id (replay harness)
 
 /-- a tiny parser monad over the token list -/
 abbrev P := StateT (List String) Option
@@ -169,9 +171,39 @@ def nodeOpsAnswer (ops : List GoSlice.NodeOp) : String :=
   let r := GoSlice.runOps (fun c => c / 1000) [] GoSlice.Node.fresh ops
   "T[" ++ commaNats (GoSlice.read r.1 r.2.attrs) ++ "] D[" ++ commaNats (GoSlice.read r.1 r.2.dels) ++ "]"
 
+def adjOf (s : St) (peerId : Nat) : List AdjIn :=
+  match s.adjs.find? (·.1 == peerId) with
+  | some x => x.2
+  | none => []
+
+def setAdj (s : St) (peerId : Nat) (adj : List AdjIn) : St :=
+  { s with adjs := (peerId, adj) :: s.adjs.filter (·.1 != peerId) }
+
+def insertNat (a : Nat) : List Nat → List Nat
+  | [] => [a]
+  | b :: rest => if a ≤ b then a :: b :: rest else b :: insertNat a rest
+
+def sortNats (l : List Nat) : List Nat := l.foldr insertNat []
+
+/-- accepted keys | rejected keys | accepted counter -/
+def rAdj (adj : List AdjIn) : String :=
+  "acc[" ++ commaNats (sortNats ((replayList adj).map (·.key))) ++ "] rej[" ++
+    commaNats (sortNats ((adj.filter (·.rejected)).map (·.key))) ++ "] n=" ++ toString (acceptedCount adj)
+
 def step (s : St) (ts : List String) : St × List String :=
   match ts with
   | [] => (s, [])
+  | ["inreset"] => ({ s with adjs := [] }, [])
+  | ["inrecv", pid, key, las, allow, ibgp] =>
+    let r := recvAnnounce s.g (nat! las) (nat! allow) (b! ibgp) (adjOf s (nat! pid)) (nat! key) s.new
+    (setAdj s (nat! pid) r.1,
+      [(match r.2 with | .withdraw => "withdraw " | .announce _ => "announce ") ++ rAdj r.1])
+  | ["inwd", pid, key] =>
+    let adj := recvWithdraw (adjOf s (nat! pid)) (nat! key)
+    (setAdj s (nat! pid) adj, [rAdj adj])
+  | ["indump", pid] => (s, [rAdj (adjOf s (nat! pid))])
+  | ["inreplay", pid] =>
+    (s, ["used[" ++ commaNats (sortNats ((replayList (adjOf s (nat! pid))).map (·.key))) ++ "]"])
   | ["goappend", c, l, n] => (s, [goAppendAnswer (nat! c) (nat! l) (nat! n)])
   | "nodeops" :: rest =>
     match parseNodeOps rest with
